@@ -32,6 +32,10 @@ pub struct Bcast {
     /// helper thread spawned (and joined) for this one broadcast — the pool
     /// is used by different threads one after the other.
     pub helper_caller: bool,
+    /// The panic payload of the call for index 0 (if that call panics) has a
+    /// destructor that panics itself: `broadcast` then unwinds instead of
+    /// returning — still only after every call has finished.
+    pub payload_bomb: bool,
 }
 
 #[derive(Clone, Debug, PartialEq, Eq)]
@@ -112,6 +116,15 @@ impl dsim::Monitor for FrameLiveness {
             && st.returned.get(st.cur as usize) == Some(&false)
             && !st.returned.is_empty()
         {
+            // Unwinding out of `broadcast` once every call has finished and
+            // the countdown has reached zero is a legitimate way back (the
+            // caller's panic payload had a panicking destructor): from here
+            // on the broadcast counts as returned.
+            let cur = st.cur as usize;
+            if st.ended == st.n + 1 && (st.n == 0 || st.zero[cur].is_some()) {
+                st.returned[cur] = true;
+                return None;
+            }
             return Some(format!(
                 "[caller_panicked_in_broadcast] broadcast {} (n={}): the calling thread panicked out of broadcast ({} of {} task calls finished); workers may still hold a pointer into its frame",
                 st.cur,
@@ -178,7 +191,12 @@ impl dsim::Monitor for FrameLiveness {
         // The shared state of broadcast j lives around its countdown; later
         // broadcasts usually reuse the same frame.
         let near = |a: Option<usize>| a.map_or(false, |a| addr.abs_diff(a) <= 256);
-        if !(near(st.shared_addr[j]) || near(st.shared_addr.get(st.cur as usize).copied().flatten())) {
+        // (If nobody has operated on that broadcast's countdown yet — the
+        // caller came back without ever looking at it — its address is
+        // unknown; the only thing a worker still serving it can be about to
+        // operate on is that shared state.)
+        let unknown = st.shared_addr[j].is_none() && returned;
+        if !(unknown || near(st.shared_addr[j]) || near(st.shared_addr.get(st.cur as usize).copied().flatten())) {
             return None;
         }
         Some(format!(
@@ -214,18 +232,27 @@ fn one_broadcast(
         if b.panics.contains(&i) {
             probe::fault_fired("panic_in_task");
             probe::event(UserEv::TaskPanic { j: j as u32, i: i as u32 });
+            if i == 0 && b.payload_bomb {
+                std::panic::resume_unwind(Box::new(DropBomb));
+            }
             std::panic::resume_unwind(Box::new(InjectedPanic));
         }
         probe::event(UserEv::TaskEnd { j: j as u32, i: i as u32 });
         value_of(j, i)
     };
     probe::event(UserEv::BroadcastBegin { j: j as u32, n: n as u32 });
+    let unwound;
     let results: Vec<Option<u64>> = match b.api {
         Api::Broadcast => {
-            pool.broadcast(n, |i| {
-                task(i);
-            });
+            // (`broadcast` itself unwinds when the caller's payload has a
+            // panicking destructor; that is a way of coming back from it.)
+            let r = std::panic::catch_unwind(std::panic::AssertUnwindSafe(|| {
+                pool.broadcast(n, |i| {
+                    task(i);
+                })
+            }));
             probe::event(UserEv::BroadcastReturn { j: j as u32 });
+            unwound = r.is_err();
             cells
                 .iter()
                 .map(|c| match c.load(Ordering::Relaxed) {
@@ -241,8 +268,9 @@ fn one_broadcast(
             vec.clear();
             vec.push(Some(7));
             vec.push(None);
-            pool.par_extend(vec, n, task);
+            let r = std::panic::catch_unwind(std::panic::AssertUnwindSafe(|| pool.par_extend(vec, n, task)));
             probe::event(UserEv::BroadcastReturn { j: j as u32 });
+            unwound = r.is_err();
             if vec.len() < 2 || vec[0] != Some(7) || vec[1].is_some() {
                 probe::fail(format!(
                     "par_extend disturbed existing elements: {:?}",
@@ -252,10 +280,32 @@ fn one_broadcast(
             vec[2..].to_vec()
         }
     };
+    if unwound && !(b.payload_bomb && b.panics.contains(&0)) {
+        probe::fail(format!(
+            "[broadcast_panicked] broadcast {j} (n={n}) unwound into its caller although no panic payload with a panicking destructor was involved (panicking calls: {:?})",
+            b.panics
+        ));
+    }
+    if unwound {
+        probe::hit("broadcast_unwound_after_payload_drop_panicked");
+    }
     let aux = pool.aux_thread_count();
     let mut o = out.lock().unwrap();
     o.results.push(results);
     o.aux_counts.push(aux);
+}
+
+/// Panic payload whose destructor panics (once, and never while its thread
+/// is already unwinding).
+struct DropBomb;
+
+impl Drop for DropBomb {
+    fn drop(&mut self) {
+        if !std::thread::panicking() {
+            probe::fault_fired("panic_in_payload_drop");
+            std::panic::resume_unwind(Box::new(InjectedPanic));
+        }
+    }
 }
 
 impl PoolScn {
@@ -285,7 +335,9 @@ impl PoolScn {
             let api = if rng.chance(1, 2) { Api::Broadcast } else { Api::ParExtend };
             let panics = (0..=n).filter(|_| rng.chance(panic_permille, 1000)).collect();
             let helper_caller = helper_permille > 0 && rng.chance(helper_permille, 1000);
-            broadcasts.push(Bcast { n, api, panics, helper_caller });
+            let panics: Vec<usize> = panics;
+            let payload_bomb = panics.contains(&0) && rng.chance(1, 3);
+            broadcasts.push(Bcast { n, api, panics, helper_caller, payload_bomb });
         }
         let mut spurious_parks = Vec::new();
         let n_spurious = *rng.pick(&[0u32, 0, 0, 1, 1, 2]);
@@ -318,6 +370,7 @@ impl PoolScn {
                 "api": match b.api { Api::Broadcast => "broadcast", Api::ParExtend => "par_extend" },
                 "panics": b.panics,
                 "helper_caller": b.helper_caller,
+                "payload_bomb": b.payload_bomb,
             })).collect::<Vec<_>>(),
             "spurious_parks": self.spurious_parks.iter().map(|&(t, k)| json!([t, k])).collect::<Vec<_>>(),
             "cas_weak_fail": self.cas_weak_fail,
@@ -342,6 +395,7 @@ impl PoolScn {
                         .map(|x| x.as_u64().map(|x| x as usize))
                         .collect::<Option<Vec<_>>>()?,
                     helper_caller: b["helper_caller"].as_bool().unwrap_or(false),
+                    payload_bomb: b.get("payload_bomb").and_then(|x| x.as_bool()).unwrap_or(false),
                 })
             })
             .collect::<Option<Vec<_>>>()?;
@@ -363,7 +417,7 @@ impl PoolScn {
         let mut h = dsim::event::Fnv::default();
         for b in &self.broadcasts {
             h.u64(b.n as u64);
-            h.u64(b.api as u64 | (b.helper_caller as u64) << 4);
+            h.u64(b.api as u64 | (b.helper_caller as u64) << 4 | (b.payload_bomb as u64) << 5);
             for p in &b.panics {
                 h.u64(*p as u64 + 1);
             }
@@ -473,6 +527,11 @@ impl PoolScn {
             if b.helper_caller {
                 let mut s = self.clone();
                 s.broadcasts[j].helper_caller = false;
+                c.push(s);
+            }
+            if b.payload_bomb {
+                let mut s = self.clone();
+                s.broadcasts[j].payload_bomb = false;
                 c.push(s);
             }
         }
@@ -802,13 +861,13 @@ pub fn check_c07(scn: &PoolScn, r: &RunResult, _out: &PoolOutcome) -> Vec<Violat
             format!("process::abort reached on sim thread {tid}"),
         )),
         Some(Failure::Invariant { message }) => {
-            // In-run monitors (frame liveness) belong to C06's clauses —
-            // except a broadcast that ends with a panic on its caller: that
-            // history did not run to completion.
-            let vi = crate::batch::invariant_violation(message);
-            if vi.class == "caller_panicked_in_broadcast" {
-                v.push(vi);
-            }
+            // The in-run monitors (frame liveness) are stated with C06's
+            // clauses, but a history the simulator had to stop — because its
+            // next step would have been a use of the caller's dead frame, or
+            // because `broadcast` came back before its calls had finished —
+            // did not run to completion either (and could not be judged
+            // further: what follows is undefined behaviour).
+            v.push(crate::batch::invariant_violation(message));
         }
         Some(_) | None => {}
     }
